@@ -330,10 +330,20 @@ def run_case(c, Pm):
                             info['readback'] = ('exc',) + lib.exc_family(e)
                 if rhs_before is not None and not same_obj(G.observe(rhs), rhs_before):
                     fail = fail or 'rhs_changed'
+                # the target keeps arrays of its own: a later change of the assigned object (or of whatever it is a
+                # view of) must not reach the target (seeded change C10-M: copy() of a shapeless object with array
+                # items returned the same arrays)
+                if rhs_before is not None and isinstance(rhs._values_, np.ndarray) and isinstance(q._values_, np.ndarray) \
+                        and rhs._values_.size and np.shares_memory(q._values_, rhs._values_):
+                    fail = fail or 'target_shares_storage_with_assigned_object'
         if other is not None and not same_obj(G.observe(other), other_before):
             fail = fail or 'mask_sharer_changed'
         if idx_snap is not None and G.index_snapshot(idx) != idx_snap:
             fail = fail or 'index_object_modified'     # assigning through an index object must not alter it
+        # the public attribute d_d<key> is the derivative held in .derivs (seeded change C10-L: after the first
+        # assignment to a target whose derivative was a broadcast view the attribute still named the old object)
+        if any(getattr(q, 'd_d' + kk, None) is not dd for kk, dd in q._derivs_.items()):
+            fail = fail or 'd_d_attribute_is_not_the_derivative' 
         info['fail'] = fail
         res['steps'].append(info)
         if fail:
